@@ -7,8 +7,8 @@ FixNoClosed == {"dupguard"}
 KindsTP == {"thread", "process"}
 KindsP == {"process"}
 KindsAll == {"thread", "process", "remote"}
-FreeBoth == {[id |-> "free", force |-> f, ops |-> <<>>] : f \in {"none", "false"}}
-FreeNone == {[id |-> "free", force |-> "none", ops |-> <<>>]}
+FreeBoth == {[id |-> "free", force |-> f, ctimeout |-> t, ops |-> <<>>] : f \in {"none", "false"}, t \in {"small", "none"}}
+FreeNone == {[id |-> "free", force |-> "none", ctimeout |-> "small", ops |-> <<>>]}
 \* planned histories for replay: [{"id": "h0", "force": "none", "ops": ["add:process", "run", "close"]}, ...]
 PlanSeq == JsonDeserialize(IOEnv.CASE_FILE)
 PlanSet == {PlanSeq[i] : i \in 1..Len(PlanSeq)}
